@@ -5,6 +5,7 @@ import Resolvo.Graph
 import Resolvo.MDet.Checked
 import Resolvo.MDet.Graph
 import Resolvo.Abs.Decide
+import Resolvo.Render
 /-! Driver for the solver families: evaluates the oracles on the implementation's outputs. -/
 namespace Resolvo.Drv
 open Resolvo
@@ -274,7 +275,19 @@ def mdetCompare (U : Universe) (ms : Resolvo.MDet.S) (o : Resolvo.MDet.Outcome) 
         else if mn != r.graphNodes then [s!"oracle-fail C03,C06 mdet-graph: conflict graph nodes differ: implementation [{" ".intercalate r.graphNodes}] model [{" ".intercalate mn}]"]
         else []
       else []
-    g ++ ["info mdet-exact 1"]
+    -- the user-friendly message: the model of `simplify` / `get_installable_set` / `DisplayUnsat` must produce the same bytes
+    let hexOf (s : String) : String := s.toUTF8.toList.foldl (fun acc b =>
+      let d (n : Nat) : Char := if n < 10 then Char.ofNat (48 + n) else Char.ofNat (87 + n)
+      acc.push (d (b.toNat / 16)) |>.push (d (b.toNat % 16))) ""
+    let msg := if mres == "unsat" && !r.message.isEmpty && !(r.message.startsWith "panic") then
+        let kinds := mconf.map (fun cid => (ms.clauses.getD cid default).kind)
+        match Resolvo.Render.render U (Resolvo.Render.buildGraph U ms.origins kinds) with
+        | some text =>
+          if hexOf text == r.message then ["info mdet-message 1"]
+          else [s!"oracle-fail C04,C06 mdet-message: the user-friendly conflict message differs: implementation `{r.message}` model `{hexOf text}`"]
+        | none => ["oracle-fail C04 mdet-message-fuel: the model of the message renderer ran out of fuel"]
+      else []
+    g ++ msg ++ ["info mdet-exact 1"]
 
 def runSolve (lines : List String) : List String :=
   let caseLines := lines.filter (fun l => !l.startsWith "> ")
